@@ -366,8 +366,10 @@ pub(crate) fn extract_code_block_start(line: &str) -> Option<(&str, &str, &str)>
                 return None;
             }
             // what follows the backticks of a fence can not contain backticks, that
-            // is inline code at the start of a line: ```code``` and text
-            if line[index..].contains('`') {
+            // is inline code at the start of a line: ```code``` and text (the values
+            // of an inline configuration can contain them)
+            let language_end = line[index..].find('{').map_or(line.len(), |at| index + at);
+            if line[index..language_end].contains('`') {
                 return None;
             }
             language_start = Some(index);
